@@ -1,5 +1,6 @@
 import Proofs.C02
 import FsicModel.Linker
+import Proofs.Lemmas.LinkerOutcome
 /-
 C08 — Linker solves its submodels jointly and consistently.
 
@@ -469,5 +470,23 @@ example : lSolveT exL { maxIter := 10 } 3 1 [1] ⟨([0, 0], [-1, -1]), List.repl
 
 example : (lSolveT exL {} 3 1 [0, 7] ⟨([0, 0], [-1, -1]), List.replicate 3 .unsolved, [-1, -1, -1]⟩).2 = .keyError := by
   decide
+
+/-! ### The linker's own record never feeds back -/
+
+/-- For given values (the linker's series and its submodels, with their own records) there is one outcome — new
+    values, at most one stamp on the linker at the period, result — whatever the linker's `status` / `iterations`
+    hold: they are written, never read. -/
+theorem linker_outcome_exists (sel : List Id) (u : σ) :
+    ∃ oc : LOutcome σ, ∀ (st : List Status) (it : List Int),
+      lSolveT L o n t sel ⟨u, st, it⟩ = applyLOutcome n t ⟨u, st, it⟩ oc :=
+  ⟨lOutcomeOf L o n t sel u, fun st it => lSolveT_eq_outcome L o n t sel ⟨u, st, it⟩⟩
+
+/-- **History-independence of the linker**: the same call from the same values gives the same values (of the linker
+    and of every submodel, including the submodels' statuses and iteration counts) and the same result, whatever record
+    earlier calls left on the linker. -/
+theorem linker_history_irrelevant (sel : List Id) (u : σ) (st st' : List Status) (it it' : List Int) :
+    (lSolveT L o n t sel ⟨u, st, it⟩).1.user = (lSolveT L o n t sel ⟨u, st', it'⟩).1.user ∧
+    (lSolveT L o n t sel ⟨u, st, it⟩).2 = (lSolveT L o n t sel ⟨u, st', it'⟩).2 := by
+  simp only [lSolveT_eq_outcome, applyLOutcome_user, applyLOutcome_result, and_self]
 
 end Fsic.C08
